@@ -34,6 +34,10 @@ func init() {
 		func(t *vcTrial) {
 			vcRunC06(t, vc06Cfg{Network: "tcp", Handler: "all", Chunks: 2, PeerClose: true, Mode: vcModePause, P: vpProcessBetweenChecks, Q: vpCloseCbBeforeRun, WriteOnPark: true})
 		},
+		// D20 (known): send+close completes before the accept path starts the OnConnect task
+		func(t *vcTrial) {
+			vcRunC06(t, vc06Cfg{Network: "tcp", Handler: "all", Chunks: 1, OnConnectUs: 100, PeerClose: true, Mode: vcModePause, P: vpAcceptAfterStore, Q: vpCloseCbDone, EarlyPlan: true})
+		},
 		func(t *vcTrial) { vcRunC06Client(t, true) },
 		func(t *vcTrial) { vcRunC06Client(t, false) },
 	}
@@ -48,6 +52,7 @@ type vc06Cfg struct {
 	Mode        int
 	P, Q        int
 	WriteOnPark bool
+	EarlyPlan   bool // arm the plan before the client connects (points on the accept path)
 }
 
 var vc06P = []int{vpProcessBeforeUnlock, vpProcessAfterUnlock, vpProcessBetweenChecks, vpProcessExit, vpOnConnectBeforeUnlock, vpOnConnectAfterUnlock, vpTaskStart, vpProcessStart, vpOnRequestDeferred}
@@ -174,6 +179,9 @@ func vcRunC06(t *vcTrial, cfg vc06Cfg) {
 		return
 	}
 	defer srv.Stop(3 * time.Second)
+	if cfg.EarlyPlan && cfg.Mode == vcModePause {
+		vcSetPlan(&vcPlan{Mode: vcModePause, P: cfg.P, Q: cfg.Q, ArgQ: -1, Timeout: 30 * time.Millisecond})
+	}
 	cli, err := vcDialRaw(srv)
 	if err != nil {
 		t.Inconclusive("dial: %v", err)
@@ -234,7 +242,9 @@ func vcRunC06(t *vcTrial, cfg vc06Cfg) {
 		t.Inconclusive("accept not seen")
 		return
 	}
-	vcSetPlan(t.Plan)
+	if !cfg.EarlyPlan {
+		vcSetPlan(t.Plan)
+	}
 	defer vcSetPlan(nil)
 	for i := 0; i < cfg.Chunks; i++ {
 		sendChunk()
@@ -303,7 +313,11 @@ func vcRunC06(t *vcTrial, cfg vc06Cfg) {
 		// buffered input is offered to the handler before the close callbacks run
 		if got := atomic.LoadUint64(&consumed); got != total() {
 			evs := rec.events()
-			t.Violate("C06", "input_dropped_at_close", "peer sent %d bytes and closed; the handler had consumed %d when the close callbacks ran (history tail %v)", total(), got, rec.history()[vcMaxInt(0, len(evs)-6):])
+			cause := ""
+			if cfg.OnConnectUs > 0 && rec.count(vcCbConnectStart) == 0 {
+				cause = " [OnConnect was configured but never started: the peer's data and FIN were processed before the accept path started the OnConnect task, and the hang-up took the processing lock]"
+			}
+			t.Violate("C06", "input_dropped_at_close", "peer sent %d bytes and closed; the handler had consumed %d when the close callbacks ran (history tail %v)%s", total(), got, rec.history()[vcMaxInt(0, len(evs)-6):], cause)
 		}
 		// and no handler invocation after them
 		evs := rec.events()
